@@ -16,6 +16,21 @@ pub fn handle(op: &str, a: &[&str]) -> Option<String> {
             let n: u32 = n.parse().ok()?;
             ok_i(&Roots::nth_root(&parse_i(x)?, n))
         }
+        // api-coverage: the INHERENT methods `BigUint::{sqrt,cbrt,nth_root}` / `BigInt::{sqrt,cbrt,nth_root}`
+        // (src/biguint.rs, src/bigint.rs: one-line forwarders to the `Roots` impl) — path-qualified so that the
+        // inherent method, not the trait method, is called
+        ("u.sqrt_m", [x]) => ok_u(&num_bigint::BigUint::sqrt(&parse_u(x)?)),
+        ("u.cbrt_m", [x]) => ok_u(&num_bigint::BigUint::cbrt(&parse_u(x)?)),
+        ("u.nth_root_m", [x, n]) => {
+            let n: u32 = n.parse().ok()?;
+            ok_u(&num_bigint::BigUint::nth_root(&parse_u(x)?, n))
+        }
+        ("i.sqrt_m", [x]) => ok_i(&num_bigint::BigInt::sqrt(&parse_i(x)?)),
+        ("i.cbrt_m", [x]) => ok_i(&num_bigint::BigInt::cbrt(&parse_i(x)?)),
+        ("i.nth_root_m", [x, n]) => {
+            let n: u32 = n.parse().ok()?;
+            ok_i(&num_bigint::BigInt::nth_root(&parse_i(x)?, n))
+        }
         _ => return None,
     })
 }
